@@ -105,13 +105,15 @@ def run(prop, tier, seed, replay, plan, scratch, children, start):
         return 2
     env = dict(os.environ)
     env["VERIF_SCRATCH"] = scratch
-    if plan.get("server") or "vproc" in plan.get("extra", []) or engine in ("vproc",):
+    if plan.get("server") or ("vproc" in plan.get("extra", []) and os.path.isdir(os.path.join(VERIF, "harness", "vproc"))) or engine in ("vproc",):
         srv = os.path.join(scratch, "resonate")
         if not B.build_server(os.path.join(scratch, "build"), out=srv):
             print("CHECK-BROKEN property=%s resonate does not build" % prop)
             return 2
         env["VERIF_SERVER"] = srv
     for extra in plan.get("extra", []):
+        if not os.path.isdir(os.path.join(VERIF, "harness", extra)):
+            continue
         xp = os.path.join(scratch, extra)
         if not B.build(extra, os.path.join(scratch, "build"), out=xp):
             print("CHECK-BROKEN property=%s harness %s does not build" % (prop, extra))
